@@ -14,8 +14,12 @@ import sys
 import time
 
 VERIF = os.path.dirname(os.path.dirname(os.path.abspath(__file__)))
-REPO = os.environ.get("VF_REPO", "/repo")
+REPO = os.path.abspath(os.environ.get("VF_REPO", "/repo"))
 WORK = os.path.join(VERIF, ".work")
+ALT = REPO != "/repo"
+if ALT:
+    # scratch trees (mutation validation) get their own build + evidence area
+    WORK = os.path.join(VERIF, ".work", "alt-" + hashlib.sha256(REPO.encode()).hexdigest()[:10])
 BUILD_ROOT = os.path.join(WORK, "build")
 SHIM_DIR = os.path.join(VERIF, "shim")
 
